@@ -133,7 +133,10 @@ def make_prop(pid):
         results = eval_rules(PROP_RULES[pid], "all", pid)
         if tier == "thorough":
             import thorough
-            results.extend(thorough.extra(pid, PROP_RULES[pid]))
+            import report
+            known = report.load_known()[0].get(pid, {})
+            clean = not any(v.key not in known for r in results for v in r.violations) and not any(r.errors for r in results)
+            results.extend(thorough.extra(pid, PROP_RULES[pid], base_clean=clean))
         return results
     return run
 
